@@ -177,7 +177,8 @@ class LockStep:
                            observed=brief(ro[:2]), expected=brief(mo[:2]),
                            detail=brief(ro[2]),
                            _raw=dict(op=op, args=rargs, ro=ro, mo=mo,
-                                     present=present, walk=before))
+                                     present=present, walk=before,
+                                     margs=margs))
             if not self.last_tag or (op in MUTATING_OPS and
                                      ro[0] != mo[0]):
                 return False
